@@ -9,6 +9,7 @@ spec/ConnCtrl.tla models every mutex-protected read / insert of the ConnectContr
  * Oracle: a REAL count above its limit.  An overshoot that exists only in the model is never a verdict.
 """
 import _connctrl as cc
+from _bp2p_cover import fast_cover
 
 ACTIONS = ["Check", "Save", "HandshakeFail", "Close"]
 RESULTS = ["checked", "rej-addr", "rej-full", "rej-ip", "rej-connecting", "rej-kid", "saved", "failed", "closed"]
@@ -20,7 +21,7 @@ def run(ctx):
     # (universe, (MaxIn, MaxPerIp, MaxOut), also model-check the fine-grained design / as-coded variants)
     configs = [("ConnsQ", (2, 1, 1), True), ("ConnsQ2", (2, 1, 1), False)]
     if ctx.thorough:
-        configs += [("ConnsT", (2, 1, 1), True), ("ConnsT", (3, 2, 2), True), ("ConnsT2", (2, 1, 1), False), ("ConnsT2", (3, 2, 1), False)]
+        configs += [("ConnsQ", (2, 2, 1), False), ("ConnsT", (2, 1, 1), True), ("ConnsT2", (3, 2, 1), False)]
     seen_names, seen_results = set(), set()
     binary = ctx.go_test_bin("p2pserver/connect_controller", harness="b_p2p_connctrl", hide_own_tests=True)
     stats = {"steps": 0, "overshoots": {}, "fatal_logs": 0}
@@ -28,21 +29,24 @@ def run(ctx):
     model_notes = []
     for (conns, lim, full) in configs:
         tag = "%s-%d%d%d" % (conns, lim[0], lim[1], lim[2])
+        # two dials to one address can both be established in the fine-grained models (stale hasBoundAddr), so the
+        # bookkeeping invariant is claimed for the fine-grained runs only where remote addresses are pairwise distinct
+        book = ["Book"] if conns == "ConnsQ" else []
         if full:
             # -- MC 1: intended design, every critical section its own step: Limits must be an invariant
-            r = cc.tlc(ctx, tag + "-design", conns, lim, False, True, ["TypeOK", "Book", "Limits"], False)
+            r = cc.tlc(ctx, tag + "-design", conns, lim, False, True, ["TypeOK", "Limits"] + book, False)
             if r.status != "ok":
                 ctx.infra("design model (Save re-tests the limits) does not satisfy its invariants: %s %s" % (r.violated, r.errors[:2]))
             # -- MC 2: the code as it is, fine-grained: candidate counterexample (never a verdict by itself)
-            r = cc.tlc(ctx, tag + "-coded-fine", conns, lim, True, True, ["TypeOK", "Book", "Limits"], False, workers=1)
+            r = cc.tlc(ctx, tag + "-coded-fine", conns, lim, True, True, ["TypeOK", "Limits"] + book, False, workers=1)
             if r.status == "violation" and r.violated == "Limits":
                 model_notes.append("%s: TLC finds a Limits counterexample in the as-coded model (%d states explored before it)" % (tag, r.distinct))
             elif r.status == "ok":
                 model_notes.append("%s: as-coded model satisfies Limits" % tag)
             else:
                 ctx.infra("as-coded fine-grained model: %s %s" % (r.status, r.errors[:2]))
-            if ctx.thorough:
-                r = cc.tlc(ctx, tag + "-coded-fine-full", conns, lim, True, True, ["TypeOK", "Book"], False)
+            if ctx.thorough and conns == "ConnsQ":
+                r = cc.tlc(ctx, tag + "-coded-fine-full", conns, lim, True, True, ["TypeOK"] + book, False)
                 if r.status != "ok":
                     ctx.infra("as-coded fine-grained model (full exploration): %s %s" % (r.status, r.errors[:2]))
         # -- MC 3 + edge export at the granularity the harness can force
@@ -60,9 +64,9 @@ def run(ctx):
         if not binary:
             continue
         wit = cc.shortest_witnesses(edges, inits, lim)
-        paths, ncov = ctx.cover(edges, inits, max_len=40)
-        if ncov != len({(cc.vf.canon(e["from"]), cc.vf.canon(e["act"]), cc.vf.canon(e["to"])) for e in edges}):
-            ctx.infra("cover incomplete: %d edges covered" % ncov)
+        paths, ncov, nuniq = fast_cover(edges, inits, max_len=40)
+        if ncov != nuniq or nuniq == 0:
+            ctx.infra("cover incomplete: %d of %d edges covered" % (ncov, nuniq))
         # shortest overshooting schedules first: they become the minimal repro of a finding
         allpaths = sorted(wit.values(), key=lambda w: len(w["steps"])) + paths
         ctx.log("%s: %d edges, %d schedules (%d steps), model overshoot kinds reachable: %s" % (
